@@ -1,6 +1,9 @@
 """Stream fixtures shared by the stream-level harnesses (C01, C02, C11-C14, C20 ...):
 property packages built once per process and direct injection of symbolic flows."""
 import thermosteam as tmo
+import z3
+
+from symx import core
 
 from symx import isolation
 from . import common as C
@@ -48,11 +51,21 @@ def sym_flows(E, name, n, presence=None, positive=True):
     return out
 
 
+def is_zero(x):
+    """syntactically zero (python 0.0 or a symbolic term that simplifies to the numeral 0)"""
+    if isinstance(x, (int, float)):
+        return x == 0
+    if isinstance(x, core.SymNum):
+        v = z3.simplify(x.z)
+        return z3.is_rational_value(v) and v.numerator_as_long() == 0
+    return False
+
+
 def inject(vec, flows):
     d = vec.dct
     d.clear()
     for i, x in enumerate(flows):
-        if not (isinstance(x, float) and x == 0.0):
+        if not is_zero(x):
             d[i] = x
 
 
